@@ -192,6 +192,18 @@ def run_check(tier, seed):
     prog_d, w1 = load_dlib_program()
     prog_s, w2 = load_shm_program()
     P = Pipeline(prog_d, prog_s)
+    # interface fact the composition relies on (t_asof <= t_query): decided here on the same tree, from the poller's MIR, with its
+    # own native replay; if it fails the composition's time line would be wrong, so C01 reports it rather than assuming it
+    from .daemon_poller import poller_order_half
+    sub = Check('C01', tier, seed)
+    try:
+        poller_order_half(sub, prog_d, seed)
+    except EngineError as e:
+        ck.inconclusive.append('interface fact (as-of before query) not decidable: %s' % e)
+    for key, desc, path in sub.violations:
+        ck.violations.append(('interface:' + key, 'interface fact of the composition violated - ' + desc, path))
+    ck.inconclusive += ['interface fact: ' + i for i in sub.inconclusive]
+    ck.cov['interface_obligations'] = sub.cov['obligations']
     K = 2 if tier == 'quick' else 3
     import itertools
     shapes = []
